@@ -286,9 +286,16 @@ def run(chk):
     chk.assume('well-formed topology: every ROADM has one transceiver; no parallel links between two ROADMs; '
                'fibres of the generated cases are SSMF 0.2 dB/km with connector losses left to the Span defaults; '
                'Raman fibres carry their own connector losses (RamanFiber() raises TypeError on con_out = None)')
-    chk.assume('generated chains: Fiber(len) | Fiber Fused Fiber | Fiber UserAmp(full|partial|none) Fiber | RamanFiber | '
-               'Fiber UserAmp(full) RamanFiber | Fiber(20 km, att_in 3 dB); len in {0.05,20,80,151,400,1200} km; the '
-               'reverse direction carries the mirrored chain (plain 80 km fibre opposite a Raman chain)')
+    chk.assume('generated chains (spec/MC_DesignStructure.tla): single fibres 0.05..1200 km; Fiber Fused [Fused] Fiber; Fiber '
+               'UserAmp(full|partial|none|voa only|explicit zeros) Fiber; joined fibres; RamanFiber alone / next to a fibre / '
+               'spliced to one / behind a user amplifier; user att_in, single connector, per-frequency loss, pmd / lumped '
+               'loss / dispersion overrides; already split spans; user-complete line systems (also with '
+               'no_insert_edfas); C+L multiband sites; 140 km under a design power sweep; settings padding 0/10, EOL 0/1, '
+               'max_length 80/(100)/150 km given in km or m, power/gain mode, SI band inside / equal to the amplifier band; '
+               'the reverse direction carries the mirrored chain (plain 80 km fibre opposite a Raman chain)')
+    chk.assume('quick tier: TLC checks the model exhaustively under two settings per 2-ROADM topology and lists the half '
+               'fraction of the settings; the real code designs the 150 km quarter of them (80 km quarter too for fibres '
+               '>= 95 km) and a third of the 3-ROADM cases; thorough: every listed case')
     chk.assume('SpanAtLeastPadding judges amplifier-to-amplifier spans without Raman fibre only; a span starting at a '
                'ROADM or transceiver (Fused after ROADM = documented no-booster idiom) is not judged')
     chk.assume('trusted: TLC, Json/IOUtils community modules, the projection in harness/design_util.py (reads uid, type, '
